@@ -428,10 +428,30 @@ Proof.
   destruct (negb (has_client _ _ _) && s_handshake s && q_new q); [inversion E; subst; discriminate|].
   destruct ((sf_msg_id f <=? q_mid q) && (q_eph q =? 0)); [inversion E; subst; discriminate|].
   rewrite Hb in E. destruct (scan false _ _ _ _ _) as [[cl' ds1] outs] eqn:Es. inversion E; subst; clear E.
-  cbn in Hd, Hy. destruct (scan_do_send _ _ _ _ _ _ _ _ Es Hd) as [_ H].
+  cbn in Hd, Hy. apply andb_true_iff in Hd as [Hd _]. destruct (scan_do_send _ _ _ _ _ _ _ _ Es Hd) as [_ H].
   pose proof (scan_subset _ _ _ _ _ _ _ _ _ Es y Hy) as Hin.
   apply H; [exact Hin| |exact He].
   destruct (c_tlast y <? _) eqn:Et; [|reflexivity].
   exfalso. pose proof (scan_evicts _ _ _ _ _ _ _ _ _ Es y Hin Et y Hy) as K.
   unfold same_client in K. rewrite !Z.eqb_refl in K. discriminate.
 Qed.
+
+(* what the scan does not evict *)
+Lemma del_client_keeps cid uid l x : In x l -> same_client cid uid x = false -> In x (del_client cid uid l).
+Proof. intros Hi Hs. unfold del_client. apply filter_In. split; [exact Hi|rewrite Hs; reflexivity]. Qed.
+
+Lemma scan_keeps bal tmin snap x : forall cl ds outs cl' ds' outs',
+  scan bal tmin snap cl ds outs = (cl', ds', outs') -> In x cl ->
+  (forall y, In y snap -> c_tlast y <? tmin = true -> same_client (c_cid y) (c_uid y) x = false) ->
+  In x cl'.
+Proof.
+  induction snap as [|c rest IH]; intros cl ds outs cl' ds' outs' E Hi Hk; cbn in E; [inversion E; subst; exact Hi|].
+  assert (Hk' : forall y, In y rest -> c_tlast y <? tmin = true -> same_client (c_cid y) (c_uid y) x = false)
+    by (intros y Hy; apply Hk; right; exact Hy).
+  destruct (c_tlast c <? tmin) eqn:Et.
+  - eapply IH; [exact E| |exact Hk']. apply del_client_keeps; [exact Hi|]. apply Hk; [left; reflexivity|exact Et].
+  - destruct bal.
+    + destruct (out_get (c_out c) outs) as [[[d n] p]|]; eapply IH; try exact E; assumption.
+    + destruct (negb (c_requested c) && (c_eph c =? 0)); eapply IH; try exact E; assumption.
+Qed.
+
